@@ -225,7 +225,7 @@ func runC01(c *Ctx) {
 			g := NewGate(c.P)
 			g.Inline = func(_, callee *ssa.Function, depth int) bool {
 				// inline only the bool methods of *NetworkRule taking the request that are leaf string tests
-				return depth <= 2 && callee.Signature.Recv() != nil && len(callee.Blocks) == 1
+				return depth <= 2 && callee.Signature.Recv() != nil && (len(callee.Blocks) == 1 || (depth <= 1 && leafPredicate(callee) && len(fieldReadsIn(callee, "rules", "NetworkRule", "Shortcut")) > 0))
 			}
 			s := g.Eval(match)
 			u := g.U
@@ -240,7 +240,7 @@ func runC01(c *Ctx) {
 			if contains == nil {
 				c.Fail("C01.R5", "NetworkRule.Match: shortcut conjunct", match.Pos(), "Match does not test strings.Contains(<request field>, rule.Shortcut): a rule can match a URL the window index cannot find")
 			} else {
-				c.Check(u.bdd.Implies(H, u.Atom(contains)), "C01.R5", "NetworkRule.Match: shortcut conjunct", match.Pos(), "Match() == true implies the request field contains the shortcut",
+				c.Check(u.bdd.Implies(u.bdd.And(H, u.StringAxioms(H)), u.Atom(contains)), "C01.R5", "NetworkRule.Match: shortcut conjunct", match.Pos(), "Match() == true implies the request field contains the shortcut",
 					"Match can return true although the shortcut is not contained in the request field")
 				fld := contains.Args[0]
 				okSame := fld.Op == "field" && fld.Args[0] == ps[1] && fld.Aux == probeField
